@@ -45,7 +45,10 @@ func (m *Mutex) Unlock() {
 		m.real.Unlock()
 		return
 	}
-	sched.Point("Mutex.Unlock", nil)
+	// Releasing is not a scheduling point: it cannot block, and whoever wants the lock has a
+	// (guarded) point of its own before taking it. A thread that is not after the lock cannot
+	// tell "before the release" from "after it" (larking uses no TryLock), so the switch that a
+	// point here would offer is offered, with the same effect, by the releasing thread's next point.
 	if !m.locked {
 		panic("sync: unlock of unlocked mutex")
 	}
@@ -73,7 +76,6 @@ func (m *RWMutex) Unlock() {
 		m.real.Unlock()
 		return
 	}
-	sched.Point("RWMutex.Unlock", nil)
 	if !m.writer {
 		panic("sync: Unlock of unlocked RWMutex")
 	}
@@ -92,7 +94,6 @@ func (m *RWMutex) RUnlock() {
 		m.real.RUnlock()
 		return
 	}
-	sched.Point("RWMutex.RUnlock", nil)
 	if m.readers == 0 {
 		panic("sync: RUnlock of unlocked RWMutex")
 	}
@@ -132,6 +133,10 @@ func (r *rlocker) Unlock() { (*RWMutex)(r).RUnlock() }
 type WaitGroup struct {
 	real sync.WaitGroup
 	n    int
+	// contract monitor: a Wait has been entered by thread waiter when waitThreads threads existed
+	waited      bool
+	waiter      int
+	waitThreads int
 }
 
 func (w *WaitGroup) Add(delta int) {
@@ -141,6 +146,16 @@ func (w *WaitGroup) Add(delta int) {
 	}
 	if WaitGroupAddIsPoint {
 		sched.Point("WaitGroup.Add", nil)
+	}
+	// sync.WaitGroup's contract: an Add that takes the counter from zero must happen before the
+	// Wait. A cooperative schedule orders everything, so the misuse is recognised by shape: the
+	// counter leaves zero in a thread that already existed when another thread entered Wait on
+	// this group (a thread started afterwards by the waiter is ordered behind the Wait). The race
+	// detector reports the same situation as a data race, when its timing happens to produce it.
+	if delta > 0 && w.n == 0 && w.waited {
+		if id := sched.ThreadID(); id != w.waiter && id < w.waitThreads {
+			sched.Logf("WAITGROUP-MISUSE Add from zero in thread %d although thread %d has already entered Wait on this group: the Add is not ordered before the Wait", id, w.waiter)
+		}
 	}
 	w.n += delta
 	if w.n < 0 {
@@ -153,6 +168,7 @@ func (w *WaitGroup) Wait() {
 		w.real.Wait()
 		return
 	}
+	w.waited, w.waiter, w.waitThreads = true, sched.ThreadID(), sched.ThreadCount()
 	sched.Point("WaitGroup.Wait", func() bool { return w.n == 0 })
 }
 
